@@ -112,9 +112,13 @@ func (h *handler) ServeHTTP(rw http.ResponseWriter, req *http.Request) {
 	if err != nil {
 		resp.Retryable = true
 		resp.Err = err.Error()
-		switch e := err.(type) {
-		case pkcs11Error:
-			if fatalErrors[e] {
+		// find the kind of error also behind wrapping, as the client side does
+		var p11err pkcs11Error
+		var notImpl token.NotImplementedError
+		var usage token.KeyUsageError
+		switch {
+		case errors.As(err, &p11err):
+			if fatalErrors[p11err] {
 				log.Err(err).Msg("terminating worker due to token error")
 				go h.shutdown()
 				// errors that cause the worker to restart are also retryable
@@ -123,13 +127,13 @@ func (h *handler) ServeHTTP(rw http.ResponseWriter, req *http.Request) {
 				// pkcs11 errors not in fatalErrors are probably user error, so don't retry
 				resp.Retryable = false
 			}
-		case token.NotImplementedError:
+		case errors.As(err, &notImpl):
 			resp.Retryable = false
-		case token.KeyUsageError:
+		case errors.As(err, &usage):
 			resp.Retryable = false
 			resp.Usage = true
-			resp.Key = e.Key
-			resp.Err = e.Err.Error()
+			resp.Key = usage.Key
+			resp.Err = usage.Err.Error()
 		}
 	}
 	// marshal response
